@@ -73,5 +73,10 @@ int main(){
   /* <ctype.h> as utils.c, parser.c and expression.c rely on it (strncasecmp, islower in patternSeparatorShortPos, the isspace of strtol) */
   CC("islower", islower(u)); CC("isupper", isupper(u)); CC("isspace", isspace(u));
   printf("Definition gen_tolower : list N := ["); for (int b = 0; b < 256; b++) printf("%s%d", b ? "; " : "", tolower(b)); printf("]%%N.\n");
+  /* widths the models abstract from (they count in Z), and the work buffer of the custom formatter */
+  { scpi_t c_; scpi_fifo_t f_;
+    printf("Definition gen_widths : list Z := [%d; %d; %d; %d; %d; %d]%%Z.  (* bits of output_count, input_count, fifo wr, rd, count, size *)\n",
+           (int)(8*sizeof c_.output_count), (int)(8*sizeof c_.input_count), (int)(8*sizeof f_.wr), (int)(8*sizeof f_.rd), (int)(8*sizeof f_.count), (int)(8*sizeof f_.size)); }
+  printf("Definition gen_dtostre_buf : Z := %d%%Z.\n", (int)SCPI_DTOSTRE_BUFFER_SIZE);
   printf("Definition gen_native_format : Z := %d%%Z.  (* SCPI_GetNativeFormat(): 1 big endian (NORMAL), 2 little endian (SWAPPED) *)\n", (int)SCPI_GetNativeFormat());
   return 0; }
